@@ -269,3 +269,25 @@ reg("C14", "c14", [("roundtrip", "plain", 1), ("reader", "plain", 1)], "explorat
                "and ~1.2e4 generated fixed-format files whose constraint multiset must equal the one the MPS format defines.",
     level_note="Trusts the MPS semantics model in checks/c14.py (expected()) and the fixed-column renderer.",
     design_ref="4/C14")
+
+reg("C15", "c15", [("ops", "plain", 3), ("histories", "plain", 1)], "exploration",
+    rule="ops: Hypothesis draws one operation on dense matrices of typecodes i/d/z and shapes 0..3 x 0..3 (small integers, "
+         "dyadic floats, Gaussian half-integers, so arithmetic is exact): construction from a number / sequence / matrix "
+         "(with size and tc) / nested block-column lists, 1- and 2-argument indexing and indexed assignment with int, "
+         "negative int, slice (all step signs, out-of-range bounds), list and integer-matrix keys (in and out of range) "
+         "and scalar / 1x1 / sequence / matrix right-hand sides of right and wrong size or type, + - * / for all typecode "
+         "pairs and matrix/number/1x1 pairings in both operand orders, ** and %, in-place operators, T/H/trans/ctrans/"
+         "real/imag, size reassignment, len/bool/max/min/sum/list/iter/in, elementwise sqrt/exp/log/sin/cos/mul/div/max/min. "
+         "histories: 2-12 steps over a heap of names with aliases (B = A), copies (+A, matrix(A), A[:], A.T.T), in-place "
+         "updates, indexed assignment and regular operations through any name, all names compared after each step. "
+         "Non-trivial = accepted operation on a non-empty matrix involving a list/matrix index, a binary/in-place "
+         "operation or an assignment (ops); >= 2 updates through aliased names (histories).",
+    assumptions=["the model (vlib/ref_dense.py) is written from matrices.rst; behaviours the manual leaves open are not "
+                 "generated (sign of % for negative operands, imag() of an integer matrix)",
+                 "exception classes: IndexError where the manual says index out of range; otherwise any of "
+                 "TypeError/ValueError/ZeroDivisionError/ArithmeticError/NotImplementedError counts as 'refused'"],
+    technique="property-based testing against a pure-Python column-major reference model; model-based aliasing histories",
+    level_text="~2e5 (quick) / 5e6 (thorough) generated operations and ~3e4 / 6e5 aliasing histories compared exactly "
+               "(typecode, size, every element, accepted-vs-refused, object identity) with a reference model.",
+    level_note="Trusts vlib/ref_dense.py.",
+    design_ref="4/C15")
